@@ -174,6 +174,7 @@ type Engine struct {
 	pathViol    int
 	curFrame    *frame
 	threads     []*gthread
+	wgs     map[*value]*wgState
 	mainT       *gthread
 	cur         *gthread
 	abort       interface{}
